@@ -75,8 +75,9 @@ class Pool:
             for yi in range(len(self.box)):
                 if xi != yi and all(len({self.explicit(op, xi, yi, d) for d in KNOWN}) == 4 for op in OPS):
                     self.pairs.append((xi, yi))
-        if not self.pairs:
-            raise core.InfraError("no operand pair distinguishes the four dependencies")
+        self.distinguishing = bool(self.pairs)
+        if not self.pairs:      # the code under test no longer separates the four dependencies: still run
+            self.pairs = [(xi, yi) for xi in range(len(self.box)) for yi in range(len(self.box)) if xi != yi]
 
     @staticmethod
     def digest(r):
@@ -827,6 +828,7 @@ def run(ctx: core.Check):
     ctx.lean_stage(["Pun.Props.C16"])
     rng = ctx.rng
     pool = Pool(rng)
+    ctx.extra_cov["operands_distinguish_all_four_dependencies_for_every_operator"] = pool.distinguishing
     jobs = []          # (stream, world, schedule, seqs, exp)
 
     def add_world(stream, world, cap):
@@ -868,8 +870,8 @@ def run(ctx: core.Check):
         set_prop(rng, prog)
         add_world("nest", {"actors": [{"id": 0, "kind": "thread" if sync else "loop", "parent": None, "prog": prog}]}, 1)
     # 4. interleavings
-    n_worlds = ctx.scale(160, 900)
-    cap = ctx.scale(40, 100)
+    n_worlds = ctx.scale(135, 900)
+    cap = ctx.scale(36, 100)
     for wi in range(n_worlds):
         stream = ["threads", "tasks", "mixed"][wi % 3]
         shape = rng.choice(SHAPES[stream])
